@@ -15,3 +15,105 @@ package try
 //@   prop C02
 //@   ensures !Panics(f()) ==> Eq(result, Success(f()))
 //@   ensures Panics(f()) ==> result.IsFailure()
+//@   ensures Calls(1)
+//
+//@ func Call(f) result
+//@   prop C02
+//@   ensures !Panics(verifspec.P2(f())) ==> Eq(result, Apply(f()))
+//@   ensures Panics(verifspec.P2(f())) ==> result.IsFailure()
+//@   ensures Calls(1)
+//
+//@ func CallUnit(f) result
+//@   prop C02
+//@   ensures !Panics(f()) ==> Eq(result, Apply(fp.Unit{}, f()))
+//@   ensures Panics(f()) ==> result.IsFailure()
+//@   ensures Calls(1)
+//
+// A normal return is never turned into a failure, and an error return is the
+// failure's own error.
+//
+//@ lemma callNormalReturn[T any](v T, err error)
+//@   prop C02
+//@   ensures Eq(Of(func() T { return v }), fp.Success(v))
+//@   ensures err == nil ==> Eq(Call(func() (T, error) { return v, err }), fp.Success(v))
+//@   ensures err != nil ==> Eq(Call(func() (T, error) { return v, err }), fp.Failure[T](err))
+//@   ensures err == nil ==> Eq(CallUnit(func() error { return err }), fp.Success(fp.Unit{}))
+//@   ensures err != nil ==> Eq(CallUnit(func() error { return err }), fp.Failure[fp.Unit](err))
+//
+// The panic value is exposed, unchanged, through the Panic interface of the
+// failure's error.
+//
+//@ lemma ofPanicValue[T any](p any)
+//@   prop C02
+//@   requires p != nil
+//@   ensures Of(func() T { panic(p) }).IsFailure()
+//@   ensures Of(func() T { panic(p) }).Failed().Get().(Panic).Panic() == p
+//@   ensures Call(func() (T, error) { panic(p) }).IsFailure()
+//@   ensures Call(func() (T, error) { panic(p) }).Failed().Get().(Panic).Panic() == p
+//@   ensures CallUnit(func() error { panic(p) }).IsFailure()
+//@   ensures CallUnit(func() error { panic(p) }).Failed().Get().(Panic).Panic() == p
+//
+// Get on a Failure panics with the failure's own error: captured by Of it is
+// exposed again as the panic value.
+//
+//@ lemma ofGetFailure[T any](r fp.Try[T])
+//@   prop C02
+//@   requires r.IsFailure()
+//@   ensures Of(func() T { return r.Get() }).IsFailure()
+//@   ensures Of(func() T { return r.Get() }).Failed().Get().(Panic).Panic() == any(r.Failed().Get())
+//
+//@ lemma ofGetSuccess[T any](r fp.Try[T])
+//@   prop C02
+//@   requires r.IsSuccess()
+//@   ensures Eq(Of(func() T { return r.Get() }), r)
+//
+//@ func Apply(v, err) result
+//@   prop C02
+//@   ensures err == nil ==> Eq(result, fp.Success(v))
+//@   ensures err != nil ==> Eq(result, fp.Failure[T](err))
+//
+//@ func Pure(t) result
+//@   prop C02
+//@   ensures Eq(result, fp.Success(t))
+//
+//@ func Success(t) result
+//@   prop C02
+//@   ensures Eq(result, fp.Success(t))
+//
+//@ func Failure(err) result
+//@   prop C02
+//@   requires err != nil
+//@   ensures Eq(result, fp.Failure[T](err))
+//@   ensures result.IsFailure() && result.Failed().Get() == err
+//
+//@ func FromOption(v) result
+//@   prop C02
+//@   ensures v.IsDefined() ==> Eq(result, fp.Success(v.Get()))
+//@   ensures !v.IsDefined() ==> Eq(result, fp.Failure[T](fp.ErrOptionEmpty))
+//
+//@ func FromPtr(v) result
+//@   prop C02
+//@   ensures v != nil ==> Eq(result, fp.Success(*v))
+//@   ensures v == nil ==> Eq(result, fp.Failure[T](fp.ErrOptionEmpty))
+//
+//@ func Fold(ta, bzero, fba) result
+//@   prop C02
+//@   ensures ta.IsSuccess() ==> Eq(result, fba(bzero, ta.Get())) && Calls(1)
+//@   ensures ta.IsFailure() ==> Eq(result, bzero) && NoCalls()
+//
+//@ lemma composeOptionDef[A, B, C any](f1 func(A) fp.Option[B], f2 func(B) fp.Try[C], a A)
+//@   prop C02
+//@   requires fp.ErrOptionEmpty != nil
+//@   ensures EqT(ComposeOption(f1, f2)(a), FlatMap(FromOption(f1(a)), f2))
+//@   ensures f1(a).IsDefined() ==> EqT(ComposeOption(f1, f2)(a), f2(f1(a).Get()))
+//@   ensures !f1(a).IsDefined() ==> Eq(ComposeOption(f1, f2)(a), fp.Failure[C](fp.ErrOptionEmpty))
+//
+//@ lemma composePureDef[A, B any](fab func(A) B, a A)
+//@   prop C02
+//@   ensures EqT(ComposePure(fab)(a), fp.Success(fab(a)))
+//
+//@ lemma func0Def[R any](f func() R, g func() (R, error), h func() error)
+//@   prop C02
+//@   ensures EqT(Pure0(f)(fp.Unit{}), fp.Success(f()))
+//@   ensures EqT(Func0(g)(fp.Unit{}), Apply(g()))
+//@   ensures EqT(Unit0(h)(fp.Unit{}), Apply(fp.Unit{}, h()))
